@@ -206,6 +206,23 @@ func init() {
 	pools["float64"] = poolT[float64]("float64")
 }
 
+// Three distinct function-local types that are all called "Sample" (their
+// reflect.Type.String() is identical) with different underlying types.
+func init() {
+	func() {
+		type Sample int16
+		allocators["LSample16"] = allocT[Sample]("LSample16")
+	}()
+	func() {
+		type Sample int64
+		allocators["LSample64"] = allocT[Sample]("LSample64")
+	}()
+	func() {
+		type Sample float32
+		allocators["LSampleF32"] = allocT[Sample]("LSampleF32")
+	}()
+}
+
 // AllocAny allocates a buffer of the named element type.
 func AllocAny(name string, a signal.Allocator) AnyBuf { return allocators[name](a) }
 
